@@ -784,6 +784,77 @@ func (r *crudRun) verify() {
 			r.fail("state-agrees-with-model", "table "+T+" differs from the model after "+opKind(r.trace[len(r.trace)-1]), fmt.Sprintf("after the last operation table %s holds %s, the map model holds %s", T, fmtRows(got), fmtRows(want)))
 			return
 		}
+		r.helpers(&r.meta.Tables[ti], res[0])
+	}
+}
+
+// helpers checks the pure Go helper methods generated on the collection type (IDs, <F>s, By<F>)
+// against the rows of the collection itself.
+func (r *crudRun) helpers(tm *TableMeta, coll reflect.Value) {
+	rows := rowsOf(coll)
+	T := tm.Name
+	if m := coll.MethodByName("IDs"); m.IsValid() && tm.Primary != "" {
+		r.funcs[T+"s.IDs"] = true
+		ids := m.Call(nil)[0]
+		var got, want []int64
+		for i := 0; i < ids.Len(); i++ {
+			got = append(got, ids.Index(i).Int())
+		}
+		for _, x := range rows {
+			want = append(want, idOf(x, tm))
+		}
+		sort.Slice(got, func(i, j int) bool { return got[i] < got[j] })
+		sort.Slice(want, func(i, j int) bool { return want[i] < want[j] })
+		if fmt.Sprint(got) != fmt.Sprint(want) {
+			r.fail("helpers", T+"s.IDs", fmt.Sprintf("%ss.IDs() = %v, the collection holds ids %v", T, got, want))
+		}
+	}
+	for _, fk := range tm.FKs {
+		if fk.Nullable {
+			continue
+		}
+		if m := coll.MethodByName(fk.Field + "s"); m.IsValid() {
+			r.funcs[T+"s."+fk.Field+"s"] = true
+			l := m.Call(nil)[0]
+			var got, want []int64
+			for i := 0; i < l.Len(); i++ {
+				got = append(got, l.Index(i).Int())
+			}
+			for _, x := range rows {
+				v, _ := fkValue(x, fk)
+				want = append(want, v)
+			}
+			sort.Slice(got, func(i, j int) bool { return got[i] < got[j] })
+			sort.Slice(want, func(i, j int) bool { return want[i] < want[j] })
+			if fmt.Sprint(got) != fmt.Sprint(want) {
+				r.fail("helpers", T+"s."+fk.Field+"s", fmt.Sprintf("%ss.%ss() = %v, want %v", T, fk.Field, got, want))
+			}
+		}
+		if m := coll.MethodByName("By" + fk.Field); m.IsValid() {
+			r.funcs[T+"s.By"+fk.Field] = true
+			groups := m.Call(nil)[0]
+			total := 0
+			it := groups.MapRange()
+			for it.Next() {
+				key := it.Key().Int()
+				var members []reflect.Value
+				if g := it.Value(); g.Kind() == reflect.Map || g.Kind() == reflect.Slice {
+					members = rowsOf(g)
+				} else {
+					members = []reflect.Value{g}
+				}
+				total += len(members)
+				for _, x := range members {
+					if v, _ := fkValue(x, fk); v != key {
+						r.fail("helpers", T+"s.By"+fk.Field, fmt.Sprintf("%ss.By%s(): row with %s=%d filed under key %d", T, fk.Field, fk.Field, v, key))
+					}
+				}
+			}
+			// with a unique key every row has its own group; otherwise every row appears once
+			if !fk.Unique && total != len(rows) {
+				r.fail("helpers", T+"s.By"+fk.Field+" loses rows", fmt.Sprintf("%ss.By%s() holds %d rows, the collection %d", T, fk.Field, total, len(rows)))
+			}
+		}
 	}
 }
 
